@@ -50,7 +50,26 @@ func RemainingRequest(p *load.Program, run *report.Run, pkgs []string) {
 				}
 				call, ok := as.Rhs[0].(*ast.CallExpr)
 				if !ok {
-					continue
+					// `n := take(...); acc += n`: the count kept in a local for another use
+					if nid, isID := ast.Unparen(as.Rhs[0]).(*ast.Ident); isID {
+						defs := 0
+						for _, s2 := range effective(info, fs.Body.List) {
+							d, isAs := s2.(*ast.AssignStmt)
+							if !isAs || len(d.Lhs) != 1 || len(d.Rhs) != 1 {
+								continue
+							}
+							if l, isL := d.Lhs[0].(*ast.Ident); isL && info.ObjectOf(l) == info.ObjectOf(nid) {
+								defs++
+								call, _ = ast.Unparen(d.Rhs[0]).(*ast.CallExpr)
+							}
+						}
+						if defs != 1 {
+							call = nil
+						}
+					}
+					if call == nil {
+						continue
+					}
 				}
 				run.Count("take-loops", 1)
 				key := fmt.Sprintf("%s/for <acc> < %s/<acc> += %s(…)", c.name, normTotal(info, cond.Y), calleeName(info, call))
